@@ -69,13 +69,14 @@ where
 {
     let mut masks = [0; 256];
 
-    let mut bit = 1;
-    for c in pattern {
+    let mut accept = 0;
+    for (i, c) in pattern.into_iter().enumerate() {
+        let bit = 1u64 << i;
         masks[*c.borrow() as usize] |= bit;
-        bit *= 2;
+        accept = bit;
     }
 
-    (masks, bit / 2)
+    (masks, accept)
 }
 
 /// Iterator over start positions of matches.
